@@ -227,6 +227,18 @@ fn seq_adf(rng: &mut StdRng, id: String, len: usize, out: &mut Vec<Value>) {
         }
     }
     out.append(&mut rec.out);
+    // the Adf-level counting queries on the acceptance conditions and on a partly decided interpretation
+    {
+        let g = adf.grounded();
+        for (what, terms) in [("ac", adf.ac.clone()), ("grounded", g)] {
+            let fc = adf.facet_count(&terms);
+            out.push(json!({"kind": "adfquery", "id": format!("{}?facet-{}", id, what), "nv": n, "nodes": nodes_json(&adf.bdd), "feat": features_json(),
+                            "terms": terms.iter().map(|t| t.value()).collect::<Vec<_>>(),
+                            "facet_models": fc.iter().map(|(m, _)| vec![m.cmodels, m.models]).collect::<Vec<_>>(),
+                            "facets": fc.iter().map(|(_, f)| vec![f.0, f.1]).collect::<Vec<_>>(),
+                            "formulacounts": if what == "ac" { adf.formulacounts(false).iter().map(|m| vec![m.cmodels, m.models]).collect::<Vec<_>>() } else { vec![] }}));
+        }
+    }
     let nn = adf.bdd.nodes.len();
     for k in 0..8 {
         let h = rng.gen_range(0..nn);
